@@ -157,33 +157,47 @@ func init() {
 				fmt.Fprintf(&b, "Definition ted_exact_limit : Z := %s.\n", l[0])
 			}
 		}
-		// --- default cost model
-		for _, f := range []string{"Insert", "Delete"} {
-			if fd := findFunc(p, "apted_cost.go", "DefaultCostModel", f); need(fd, "DefaultCostModel."+f) {
-				r := returnExprs(fd)
-				if len(r) != 1 {
-					fail("ted: DefaultCostModel.%s: expected one return", f)
-					continue
+		// --- default cost model: evaluated on nodes with equal / different labels
+		{
+			in := newInterp(p)
+			node := func(l string) *Struct { return mkStruct("TreeNode", "Label", l) }
+			recvV := mkStruct("DefaultCostModel")
+			evalF := func(fn string, args ...Value) (string, bool) {
+				fd := findFunc(p, "apted_cost.go", "DefaultCostModel", fn)
+				if !need(fd, "DefaultCostModel."+fn) {
+					return "", false
 				}
-				if q, ok := litQ(p, r[0]); ok {
-					fmt.Fprintf(&b, "Definition ted_default_%s : Q := %s.\n", strings.ToLower(f), q)
-				} else {
-					fail("ted: DefaultCostModel.%s: non-constant return", f)
+				v, err := in.call1(p, fd, recvV, args...)
+				x, ok := v.(float64)
+				if err != nil || !ok {
+					fail("ted: DefaultCostModel.%s cannot be evaluated: %v (%T)", fn, err, v)
+					return "", false
 				}
+				// the same for any label: the model has one constant
+				for _, alt := range [][]Value{{node("Zzz"), node("Zzz")}, {node("For"), node("Name(x)")}} {
+					if fn != "Rename" {
+						if w, err := in.call1(p, fd, recvV, alt[0]); err != nil || w != v {
+							fail("ted: DefaultCostModel.%s depends on the node", fn)
+							return "", false
+						}
+					}
+				}
+				return floatQ(x)
 			}
-		}
-		if fd := findFunc(p, "apted_cost.go", "DefaultCostModel", "Rename"); need(fd, "DefaultCostModel.Rename") {
-			r := returnExprs(fd)
-			if len(r) != 3 {
-				fail("ted: DefaultCostModel.Rename: expected 3 returns (nil, same label, different), found %d", len(r))
-			} else {
-				q1, ok1 := litQ(p, r[1])
-				q2, ok2 := litQ(p, r[2])
-				if ok1 && ok2 {
-					fmt.Fprintf(&b, "Definition ted_default_rename_same : Q := %s.\nDefinition ted_default_rename_diff : Q := %s.\n", q1, q2)
-				} else {
-					fail("ted: DefaultCostModel.Rename: non-constant returns")
+			if q, ok := evalF("Insert", node("A")); ok {
+				fmt.Fprintf(&b, "Definition ted_default_insert : Q := %s.\n", q)
+			}
+			if q, ok := evalF("Delete", node("A")); ok {
+				fmt.Fprintf(&b, "Definition ted_default_delete : Q := %s.\n", q)
+			}
+			q1, ok1 := evalF("Rename", node("A"), node("A"))
+			q2, ok2 := evalF("Rename", node("A"), node("B"))
+			q3, ok3 := evalF("Rename", node("Name(x)"), node("Name(y)"))
+			if ok1 && ok2 && ok3 {
+				if q2 != q3 {
+					fail("ted: DefaultCostModel.Rename of different labels is not a single constant")
 				}
+				fmt.Fprintf(&b, "Definition ted_default_rename_same : Q := %s.\nDefinition ted_default_rename_diff : Q := %s.\n", q1, q2)
 			}
 		}
 		// --- python cost model: constructor fields
@@ -505,6 +519,24 @@ func tedDecisions(b, tb *strings.Builder, p *pkgInfo) {
 			labels = addDistinct(labels, m+"(x)")
 		}
 		table1("isTopLevelDefinition_table", f, labels)
+	}
+
+	// ---- IsBoilerplateLabel (framework_patterns.go): the pattern lists stay read from the source, the table checks the reading
+	if fd := findFunc(p, "framework_patterns.go", "", "IsBoilerplateLabel"); fd != nil {
+		f := func(sv string) bool {
+			v, err := asBool(in.call1(p, fd, nil, sv))
+			if err != nil && !bad {
+				fail("ted: IsBoilerplateLabel cannot be evaluated: %v", err)
+				bad = true
+			}
+			return v
+		}
+		labels := addDistinct(append([]string{}, general...), universe...)
+		for _, u := range fileStrings(p, "framework_patterns.go") {
+			labels = addDistinct(labels, u, "x"+u+"y", strings.ToUpper(u), u+"x)")
+			labels = addDistinct(labels, labelStrangers(u)...)
+		}
+		table1("IsBoilerplateLabel_table", f, labels)
 	}
 
 	// ---- areRelatedNodeTypes ---------------------------------------------------------------------------
